@@ -125,10 +125,12 @@ def judge(d):
         sig = f"C04/shift-error:{d['model']}"
         if d["model"] == "FSC" and d["tilt"] is not None and err <= 0.75:
             sig = "C04/fsc-tilt-bias"                     # known finding
+        if d["model"] == "FSC" and d["tilt"] is None and frac and err <= 0.6:
+            sig = "C04/fsc-fractional-bias"               # known finding
         if d["model"] in ("ZNCC", "NCC"):
             if d["tilt"] is None and tol == 0.1 and frac and err <= 0.15:
                 sig = "C04/zncc-ncc-fractional-bias"      # known finding (see known_findings.txt)
-            elif d["tilt"] is not None and err <= 1.0:
+            elif d["tilt"] is not None and err <= (1.5 if (d["tilt"]["range"][1] - d["tilt"]["range"][0]) / 2 <= 45.0 else 1.0):
                 sig = "C04/zncc-ncc-tilt-bias"            # known finding
         out.append(viol(sig, f"{tag}: returned shift {np.round(shift, 3).tolist()}, error {err:.3f} px > {tol}", err=err))
     if not np.allclose(np.asarray(res.quat, dtype=np.float64), [0, 0, 0, 1], atol=1e-6):
